@@ -5,6 +5,7 @@ import (
 	"os"
 	"syscall"
 	"testing"
+	"time"
 )
 
 // A worker that the kernel kills (SIGKILL, no Go panic) is retried alone at the end and, when it dies again, reported
@@ -20,14 +21,18 @@ func TestPoolKernelKill(t *testing.T) {
 				select {}
 			case "panic":
 				panic("boom")
+			case "slow":
+				time.Sleep(1500 * time.Millisecond)
+			case "hang":
+				select {}
 			}
 			return s
 		})
 	}
-	p := &Pool{N: 3}
+	p := &Pool{N: 3, CaseTimeout: time.Second}
 	defer p.Close()
 	got := map[string]string{}
-	p.Run([]any{"a", "kill", "b", "panic", "c"}, func(i int, out json.RawMessage, crash *Crash, flaky bool) {
+	p.Run([]any{"a", "kill", "b", "panic", "c", "slow", "hang"}, func(i int, out json.RawMessage, crash *Crash, flaky bool) {
 		switch {
 		case crash != nil && crash.Killed:
 			got[string(rune('0'+i))] = "killed"
@@ -37,7 +42,7 @@ func TestPoolKernelKill(t *testing.T) {
 			got[string(rune('0'+i))] = string(out)
 		}
 	})
-	want := map[string]string{"0": `"a"`, "2": `"b"`, "3": "crash", "4": `"c"`}
+	want := map[string]string{"0": `"a"`, "2": `"b"`, "3": "crash", "4": `"c"`, "5": `"slow"`, "6": "crash"}
 	for k, v := range want {
 		if got[k] != v {
 			t.Errorf("case %s: got %q want %q", k, got[k], v)
